@@ -396,3 +396,262 @@ Proof.
       unfold m1, elem_block, str_mem, ba_mem. destruct is_str; rewrite skipn_app, Nat.sub_diag, skipn_all; cbn [skipn app]; reflexivity.
 Qed.
 End Loop.
+
+(* ---- the whole array branch ---- *)
+Section Arr.
+Variables (bv : val) (o : list Z) (rf rp : region) (fo po : Z).
+Notation fv := (VPtr rf fo).
+Notation ov := (VPtr rp po).
+
+(* what the call computes for a string / binary type: status and, on success, element pointers, oracle, stream, memory *)
+Definition arr_spec (k : Z) (sx m : list Z) (v cnt pk : Z) : eres :=
+  if cnt <? 0 then EErr SBDF_ERROR_INVALID_SIZE
+  else if k =? 0 then EErr SBDF_ERROR_OUT_OF_MEMORY
+  else if dec k =? 0 then EErr SBDF_ERROR_OUT_OF_MEMORY
+  else if pk =? 0 then elems_spec (v =? SBDF_STRINGTYPEID) false (Z.to_nat cnt) (dec (dec k)) sx m
+  else match read_int32 false sx with
+       | Err e => EErr e
+       | Ok (_, s1) => elems_spec (v =? SBDF_STRINGTYPEID) true (Z.to_nat cnt) (dec (dec k)) s1 m
+       end.
+
+Lemma read_objects_arr_bs k sx h m v cnt pk so : Forall byte sx -> int_min <= cnt <= int_max -> is_arr v = true ->
+  match arr_spec k sx m v cnt pk with
+  | EOk qs k' s' m' => exists l', bsE prog_env (fbody prog_sbdf_read_objects) (rof fv v cnt ov pk rol0 so bv k sx h m o)
+        (OReturn (VInt SBDF_OK) (rof fv v cnt ov pk l' (VCell (List.length h) 0) bv k' s' (arr_heap h v cnt qs []) m' o)) /\ zlen qs = cnt
+  | EErr st => exists l' k' s' h' m', bsE prog_env (fbody prog_sbdf_read_objects) (rof fv v cnt ov pk rol0 so bv k sx h m o)
+        (OReturn (VInt st) (rof fv v cnt ov pk l' VNull bv k' s' h' m' o)) /\ (h' = h \/ h' = h ++ [None] \/ h' = h ++ [None; None]) /\ prefix_of m m'
+  end.
+Proof.
+  intros Hs Hc Ha. unfold arr_spec.
+  destruct (cnt <? 0) eqn:E0.
+  { eexists (Build_rol _ _ _ _ _ _ _ _ _). do 4 eexists. split; [apply (read_objects_negative bv sx m o rf rp fo po k h v cnt pk rol0 so ltac:(lia) ltac:(lia))|].
+    split; [left; reflexivity|exists []; now rewrite app_nil_r]. }
+  destruct (k =? 0) eqn:E1.
+  { assert (k = 0) by lia. subst k. eexists (Build_rol _ _ _ _ _ _ _ _ _). do 4 eexists. split; [apply (read_objects_oom0 bv sx m o rf rp fo po h v cnt pk rol0 so ltac:(lia))|].
+    split; [left; reflexivity|exists []; now rewrite app_nil_r]. }
+  assert (Hk : k <> 0) by lia. assert (Hc0 : 0 <= cnt <= int_max) by lia.
+  pose proof (tie_is_arr v) as TA. rewrite Ha in TA. assert (Harr : Leaf.gen_sbdf_ti_is_arr v <> 0) by lia.
+  set (L := List.length h) in *.
+  destruct (dec k =? 0) eqn:E2.
+  { (* no room for the pointer array *)
+    pose proof (obj_destroy_nodata_bs bv (-1) sx m o (h ++ [Some [VInt v; VInt cnt; VNull]]) L v cnt VNull VUndef VUndef
+                ltac:(unfold obj_block; apply nth_error_app_new) eq_refl) as D. unfold L in D. rewrite kill_new in D.
+    eexists (Build_rol _ _ _ _ _ _ _ _ _). do 4 eexists. split; [|split; [right; left; reflexivity|exists []; now rewrite app_nil_r]].
+    apply read_objects_pre; [exact Hc0|exact Hk|]. replace (dec k) with 0 by lia.
+    cbn [fbody prog_sbdf_read_objects body_of]. unro.
+    eapply bsE_seq_ret. eapply bsE_if; [eva; chk7; eva; rewrite cg0; eva; rewrite TA; reflexivity|reflexivity|].
+    eapply bsE_seq; [eapply bsE_decl0; eva; reflexivity|]. eapply bsE_seq; [eapply bsE_decl0; eva; reflexivity|].
+    eapply bsE_seq; [eapply bsE_decl0; eva; reflexivity|]. eapply bsE_seq; [eapply bsE_decl0; eva; reflexivity|].
+    eapply bsE_seq; [eapply bsE_expr; eva; chk7; eva; replace (0 <=? cnt) with true by lia; eva; replace (0 <=? cnt) with true by lia; eva; change (0 =? 0) with true; cbv iota; eva;
+                     erewrite cell_set_new; [|lia|reflexivity]; eva; reflexivity|].
+    eapply bsE_seq_ret. eapply bsE_if; [eva; reflexivity|reflexivity|].
+    eapply bsE_seq; [eapply bsE_call_void; [reflexivity|eva; reflexivity|reflexivity|exact D|unfold fr; eva; reflexivity]|]. eapply bsE_return. eva. chk7. reflexivity. }
+  assert (Hk1 : dec k <> 0) by lia. set (k2 := dec (dec k)) in *.
+  set (is_str := v =? SBDF_STRINGTYPEID) in *.
+  set (lA := Build_rol (VCell (S L) 0) VUndef VUndef VUndef VUndef VUndef (VCell L 0) VUndef VUndef).
+  (* up to the pointer array *)
+  assert (ALLOC : forall oo X, bsE prog_env X (rof fv v cnt ov pk lA VNull bv k2 sx (arr_heap h v cnt [] (zeros (Z.to_nat cnt))) m o) oo ->
+     bsE prog_env (SSeq (SDecl "i" None) (SSeq (SDecl "is_string" None) (SSeq (SDecl "err" None) (SSeq (SDecl "dest" None)
+        (SSeq (SExpr (EAssign "dest" (ECellStore (EVar "t") (EConst 2) (ECalloc (ECast TSizeT (EVar "count"))))))
+        (SSeq (SIf (ELNot (EVar "dest")) (SSeq (SCall None "sbdf_obj_destroy" [(AVal (EVar "t"))]) (SReturn (EBin Sub (EConst 0) (EConst (2))))) SSkip) X))))))%string
+       (rof fv v cnt ov pk (with_t rol0 (VCell L 0)) VNull bv (dec k) sx (h ++ [Some [VInt v; VInt cnt; VInt 0]]) m o) oo).
+  { intros oo X B. unfold lA in B. revert B. unro. intros B.
+    eapply bsE_seq; [eapply bsE_decl0; eva; reflexivity|]. eapply bsE_seq; [eapply bsE_decl0; eva; reflexivity|].
+    eapply bsE_seq; [eapply bsE_decl0; eva; reflexivity|]. eapply bsE_seq; [eapply bsE_decl0; eva; reflexivity|].
+    eapply bsE_seq.
+    { eapply bsE_expr. eva. chk7. eva. replace (0 <=? cnt) with true by lia. eva. replace (0 <=? cnt) with true by lia. eva.
+      replace (dec k =? 0) with false by lia. eva.
+      replace (h ++ [Some [VInt v; VInt cnt; VInt 0]]) with (h ++ [Some [VInt v; VInt cnt; VInt 0]]) by reflexivity.
+      rewrite app_length. cbn [List.length]. replace (List.length h + 1)%nat with (S L) by (unfold L; lia).
+      assert (CS : cell_set ((h ++ [Some [VInt v; VInt cnt; VInt 0]]) ++ [Some (repeat (VInt 0) (Z.to_nat cnt))]) L (0 + 2) (VCell (S L) 0) = Some (arr_heap h v cnt [] (zeros (Z.to_nat cnt)))).
+      { unfold cell_set, arr_heap, zeros. rewrite <- app_assoc. cbn [app]. unfold L. rewrite nth_error_app2 by lia. rewrite Nat.sub_diag. cbn [nth_error Z.leb Z.add Z.compare Z.to_nat Pos.to_nat Pos.iter_op Nat.add set_nth_v].
+        change (Pos.to_nat 2) with 2%nat. cbn [set_nth_v]. rewrite set_nth_v_app. reflexivity. }
+      rewrite CS. eva. change (if 0 <? dec k then dec k - 1 else dec k) with k2. reflexivity. }
+    eapply bsE_seq; [eapply bsE_if; [eva; reflexivity|reflexivity|apply bsE_skip]|]. exact B. }
+  set (n := Z.to_nat cnt) in *.
+  assert (Hn : cnt = zlen (@nil Z) + Z.of_nat n) by (unfold n; change (zlen (@nil Z)) with 0; lia).
+  (* the array branch inside the function *)
+  assert (WRAP_RET : forall rv s', bsE prog_env (match body_of (fbody prog_sbdf_read_objects) with SSeq (SIf _ a _) _ => a | _ => SSkip end)
+              (rof fv v cnt ov pk (with_t rol0 (VCell L 0)) VNull bv (dec k) sx (h ++ [Some [VInt v; VInt cnt; VInt 0]]) m o) (OReturn rv s') ->
+            bsE prog_env (fbody prog_sbdf_read_objects) (rof fv v cnt ov pk rol0 so bv k sx h m o) (OReturn rv s')).
+  { intros rv s' B. apply read_objects_pre; [exact Hc0|exact Hk|]. cbn [fbody prog_sbdf_read_objects body_of] in *. revert B. unro. intros B.
+    eapply bsE_seq_ret. eapply bsE_if; [eva; chk7; eva; rewrite cg0; eva; rewrite TA; reflexivity|reflexivity|exact B]. }
+  assert (WRAP_OK : forall qs k' s' m' ev lv c1 c2, bsE prog_env (match body_of (fbody prog_sbdf_read_objects) with SSeq (SIf _ a _) _ => a | _ => SSkip end)
+              (rof fv v cnt ov pk (with_t rol0 (VCell L 0)) VNull bv (dec k) sx (h ++ [Some [VInt v; VInt cnt; VInt 0]]) m o)
+              (ONormal (stJ bv o rf rp fo po h v cnt pk qs 0 k' s' m' ev lv c1 c2)) ->
+            bsE prog_env (fbody prog_sbdf_read_objects) (rof fv v cnt ov pk rol0 so bv k sx h m o)
+              (OReturn (VInt SBDF_OK) (rof fv v cnt ov pk (lst h v (zlen qs) ev lv c1 c2) (VCell L 0) bv k' s' (arr_heap h v cnt qs []) m' o))).
+  { intros qs k' s' m' ev lv c1 c2 B. apply read_objects_pre; [exact Hc0|exact Hk|]. cbn [fbody prog_sbdf_read_objects body_of] in *. revert B. unfold stJ, lst, zeros. unro. cbn [repeat]. intros B.
+    eapply bsE_seq; [eapply bsE_if; [eva; chk7; eva; rewrite cg0; eva; rewrite TA; reflexivity|reflexivity|exact B]|].
+    eapply bsE_seq; [eapply bsE_expr; eva; reflexivity|]. eapply bsE_return. eva. chk7. reflexivity. }
+  assert (ISS : forall sx0, eval (EAssign "is_string" (EBin Eq (ECellLoad (EVar "t") (EConst 0) false) (EConst (10))))
+                  (rof fv v cnt ov pk lA VNull bv k2 sx0 (arr_heap h v cnt [] (zeros n)) m o) =
+                Some (VInt (b2z is_str), rof fv v cnt ov pk (Build_rol (VCell (S L) 0) VUndef VUndef (VInt (b2z is_str)) VUndef VUndef (VCell L 0) VUndef VUndef) VNull bv k2 sx0 (arr_heap h v cnt [] (zeros n)) m o)).
+  { intros sx0. unfold lA. unro. eva. chk7. eva. unfold cell_get. fold L. rewrite arr_heap_hdr. eva. chk7. reflexivity. }
+  destruct (pk =? 0) eqn:Ep.
+  - (* element lengths as 32-bit ints: no byte-size header *)
+    pose proof (loop_bs bv o rf rp fo po h v cnt pk Harr Hc0 n [] k2 sx m VUndef VUndef VUndef VUndef Hs Hn (Forall_nil _)) as LB.
+    replace (negb (pk =? 0)) with false in LB by (rewrite Ep; reflexivity). fold is_str in LB.
+    assert (TO_LOOP : forall oo, bsE prog_env (loop_of (fbody prog_sbdf_read_objects)) (stJ bv o rf rp fo po h v cnt pk [] n k2 sx m VUndef VUndef VUndef VUndef) oo ->
+              bsE prog_env (match body_of (fbody prog_sbdf_read_objects) with SSeq (SIf _ a _) _ => a | _ => SSkip end)
+                (rof fv v cnt ov pk (with_t rol0 (VCell L 0)) VNull bv (dec k) sx (h ++ [Some [VInt v; VInt cnt; VInt 0]]) m o) oo).
+    { intros oo B. cbn [fbody prog_sbdf_read_objects body_of loop_of] in *. apply ALLOC.
+      eapply bsE_seq; [eapply bsE_expr; apply ISS|].
+      eapply bsE_seq; [unro; eapply bsE_if; [eva; reflexivity|cbn [truth]; rewrite Ep; reflexivity|apply bsE_skip]|].
+      eapply bsE_seq; [unro; eapply bsE_expr; eva; chk7; reflexivity|]. revert B. unfold stJ, lst. change (zlen (@nil Z)) with 0. fold is_str. fold L. unro. intros B. exact B. }
+    destruct (elems_spec is_str false n k2 sx m) as [qs k' s' m'|st].
+    + destruct LB as (ev' & lv' & c1' & c2' & B & Hz). cbn [app] in B, Hz. eexists. split; [|exact Hz].
+      apply (WRAP_OK qs k' s' m' ev' lv' c1' c2'). apply TO_LOOP. exact B.
+    + destruct LB as (l' & k' & s' & m' & B & Pf). exists l', k', s', (h ++ [None; None]), m'. split; [|split; [right; right; reflexivity|exact Pf]].
+      apply WRAP_RET. apply TO_LOOP. exact B.
+  - (* packed: the byte-size header is read and ignored, the lengths are 7-bit packed *)
+    set (lB := Build_rol (VCell (S L) 0) VUndef VUndef (VInt (b2z is_str)) VUndef VUndef (VCell L 0) VUndef VUndef).
+    pose proof (read_int32_bs2 (arr_heap h v cnt [] (zeros n)) fv (VPtr ROut 0) VUndef bv k2 sx m o I I Hs) as R.
+    destruct (read_int32 false sx) as [[x s1]|e] eqn:ER.
+    + pose proof (read_int32_bytes sx x s1 Hs ER) as Hs1.
+      pose proof (loop_bs bv o rf rp fo po h v cnt pk Harr Hc0 n [] k2 s1 m (VInt 0) VUndef VUndef VUndef Hs1 Hn (Forall_nil _)) as LB.
+      replace (negb (pk =? 0)) with true in LB by (rewrite Ep; reflexivity). fold is_str in LB.
+      assert (TO_LOOP : forall oo, bsE prog_env (loop_of (fbody prog_sbdf_read_objects)) (stJ bv o rf rp fo po h v cnt pk [] n k2 s1 m (VInt 0) VUndef VUndef VUndef) oo ->
+                bsE prog_env (match body_of (fbody prog_sbdf_read_objects) with SSeq (SIf _ a _) _ => a | _ => SSkip end)
+                  (rof fv v cnt ov pk (with_t rol0 (VCell L 0)) VNull bv (dec k) sx (h ++ [Some [VInt v; VInt cnt; VInt 0]]) m o) oo).
+      { intros oo B. cbn [fbody prog_sbdf_read_objects body_of loop_of] in *. apply ALLOC.
+        eapply bsE_seq; [eapply bsE_expr; apply ISS|].
+        eapply bsE_seq; [unro; eapply bsE_if; [eva; reflexivity|cbn [truth]; rewrite Ep; reflexivity|]|].
+        { eapply bsE_seq; [eapply bsE_call; [reflexivity|eva; reflexivity|reflexivity|exact R|unfold ri2; eva; reflexivity]|].
+          eapply bsE_if; [eva; reflexivity|reflexivity|apply bsE_skip]. }
+        eapply bsE_seq; [eapply bsE_expr; eva; chk7; reflexivity|]. revert B. unfold stJ, lst. change (zlen (@nil Z)) with 0. fold is_str. fold L. unro. intros B. exact B. }
+      destruct (elems_spec is_str true n k2 s1 m) as [qs k' s' m'|st].
+      * destruct LB as (ev' & lv' & c1' & c2' & B & Hz). cbn [app] in B, Hz. eexists. split; [|exact Hz].
+        apply (WRAP_OK qs k' s' m' ev' lv' c1' c2'). apply TO_LOOP. exact B.
+      * destruct LB as (l' & k' & s' & m' & B & Pf). exists l', k', s', (h ++ [None; None]), m'. split; [|split; [right; right; reflexivity|exact Pf]].
+        apply WRAP_RET. apply TO_LOOP. exact B.
+    + destruct R as (c' & s1 & R). pose proof (read_int32_err sx e ER). subst e.
+      pose proof (destroy_arr_call bv s1 o fv ov v cnt pk (Build_rol (VCell (S L) 0) (VInt SBDF_ERROR_IO) c' (VInt (b2z is_str)) VUndef VUndef (VCell L 0) VUndef VUndef) VNull k2 h [] (zeros n) m eq_refl Harr
+                    ltac:(rewrite zlen_zeros; exact Hn) ltac:(lia) (Forall_nil _) (zeros_null _)) as D.
+      eexists (Build_rol _ _ _ _ _ _ _ _ _). do 4 eexists. split; [|split; [right; right; reflexivity|exists []; now rewrite app_nil_r]].
+      apply WRAP_RET. cbn [fbody prog_sbdf_read_objects body_of]. apply ALLOC.
+      eapply bsE_seq; [eapply bsE_expr; apply ISS|].
+      eapply bsE_seq_ret. unro. eapply bsE_if; [eva; reflexivity|cbn [truth]; rewrite Ep; reflexivity|].
+      eapply bsE_seq; [eapply bsE_call; [reflexivity|eva; reflexivity|reflexivity|exact R|unfold ri2; eva; reflexivity]|].
+      revert D. unro. intros D.
+      eapply bsE_if; [eva; reflexivity|reflexivity|]. eapply bsE_seq; [exact D|]. eapply bsE_return. eva. reflexivity.
+Qed.
+End Arr.
+
+(* ---- as top-level calls ---- *)
+Theorem read_objects_arr_source rf rp fo po k sx m h v cnt pk : Forall byte sx -> int_min <= cnt <= int_max -> is_arr v = true ->
+  exists f0, forall f, (f0 <= f)%nat ->
+  match arr_spec k sx m v cnt pk with
+  | EOk qs k' s' m' => exists fin,
+      callC prog_env f prog_sbdf_read_objects [VPtr rf fo; VInt v; VInt cnt; VPtr rp po; VInt pk] m k sx h = OReturn (VInt SBDF_OK) fin /\
+      lookup "*object" (vars fin) = Some (VCell (List.length h) 0) /\ lookup cells_var (vars fin) = Some (VHeap (arr_heap h v cnt qs [])) /\ zlen qs = cnt /\
+      inb fin = m' /\ lookup strm_var (vars fin) = Some (VBytes s') /\ lookup fail_var (vars fin) = Some (VInt k')
+  | EErr st => exists fin,
+      callC prog_env f prog_sbdf_read_objects [VPtr rf fo; VInt v; VInt cnt; VPtr rp po; VInt pk] m k sx h = OReturn (VInt st) fin /\
+      lookup "*object" (vars fin) = Some VNull /\
+      (lookup cells_var (vars fin) = Some (VHeap h) \/ lookup cells_var (vars fin) = Some (VHeap (h ++ [None])) \/ lookup cells_var (vars fin) = Some (VHeap (h ++ [None; None]))) /\
+      prefix_of m (inb fin)
+  end.
+Proof.
+  intros Hs Hc Ha. pose proof (read_objects_arr_bs (VInt 0) [] rf rp fo po k sx h m v cnt pk VUndef Hs Hc Ha) as B.
+  destruct (arr_spec k sx m v cnt pk) as [qs k' s' m'|st].
+  - destruct B as (l' & B & Hz). destruct (bsE_sound _ _ _ _ B) as (f0 & F). exists f0. intros f Hf. eexists. split; [apply F; exact Hf|].
+    destruct l'. repeat split; try reflexivity. exact Hz.
+  - destruct B as (l' & k' & s' & h' & m' & B & Hh & Pf). destruct (bsE_sound _ _ _ _ B) as (f0 & F). exists f0. intros f Hf. eexists. split; [apply F; exact Hf|].
+    destruct l'. split; [reflexivity|]. split; [|exact Pf]. destruct Hh as [->|[->| ->]]; [left|right; left|right; right]; reflexivity.
+Qed.
+
+(* every element pointer of a successful read points at its own fresh block: the memory is the caller's memory followed by
+   one block per element, in order *)
+Fixpoint blocks (is_str : bool) (m : list Z) (es : list (list Z)) : list Z :=
+  match es with [] => m | e :: r => blocks is_str (elem_block is_str m e) r end.
+
+(* ---- the same in the L1 model (Obj.v): without allocation failures the functional description above is the model's
+   read_objects - same status, same stream position, and the memory has grown by exactly the model's elements ---- *)
+From Sbdf Require Import Obj.
+
+Lemma take_z_firstn (s : list Z) n : 0 <= n <= zlen s -> take_z s n = Some (firstn (Z.to_nat n) s, skipn (Z.to_nat n) s).
+Proof.
+  intros H. pose proof (take_z_app (firstn (Z.to_nat n) s) (skipn (Z.to_nat n) s)) as TK.
+  rewrite firstn_skipn in TK. replace (zlen (firstn (Z.to_nat n) s)) with n in TK by (unfold zlen; rewrite firstn_length; unfold zlen in H; lia). exact TK.
+Qed.
+
+Lemma elems_model is_ty packed k : k < 0 ->
+  forall n fuel s m, Forall byte s -> (List.length s <= List.length fuel)%nat ->
+  let is_str := is_ty =? SBDF_STRINGTYPEID in
+  match rrep fuel (Z.of_nat n) (read_elem false None is_ty packed) s with
+  | Ok (es, s') => exists qs, elems_spec is_str packed n k s m = EOk qs k s' (blocks is_str m es) /\ List.length qs = List.length es
+  | Err st => elems_spec is_str packed n k s m = EErr st
+  end.
+Proof.
+  intros Hk. induction n as [|n IH]; intros fuel s m Hs Hl is_str.
+  - destruct fuel; cbn [rrep Z.of_nat Z.leb Z.compare]; exists []; split; reflexivity.
+  - assert (STEP : match read_elem false None is_ty packed s with
+                   | Ok (e, s1) => exists len s0, (if packed then read_7bit s else read_int32 false s) = Ok (len, s0) /\ (len <? 0) = false /\
+                                     (is_str && (len =? int_max)) = false /\ (zlen s0 <? len) = false /\ e = firstn (Z.to_nat len) s0 /\ s1 = skipn (Z.to_nat len) s0 /\
+                                     (List.length s1 < List.length s)%nat
+                   | Err st => match (if packed then read_7bit s else read_int32 false s) with
+                               | Err e => st = e
+                               | Ok (len, s0) => if len <? 0 then st = SBDF_ERROR_INVALID_SIZE else if is_str && (len =? int_max) then st = SBDF_ERROR_OUT_OF_MEMORY
+                                                 else (zlen s0 <? len) = true /\ st = SBDF_ERROR_IO
+                               end
+                   end).
+    { unfold read_elem, rd_bind, rfail, ralloc, alloc_ok, fread_bytes. fold is_str. unfold INT_MAX, int_max.
+      assert (RL : forall len s0, (if packed then read_7bit s else read_int32 false s) = Ok (len, s0) -> (List.length s0 < List.length s)%nat).
+      { intros len s0. destruct packed; intros E; [apply (read7_loop_shr 6 0 0 s len s0 Hs E)|apply (read_int32_range s len s0 Hs E)]. }
+      assert (EQ : (if packed then read_7bit else read_int32 false) s = (if packed then read_7bit s else read_int32 false s)) by (destruct packed; reflexivity).
+      rewrite EQ. clear EQ.
+      destruct (if packed then read_7bit s else read_int32 false s) as [[len s0]|e] eqn:ER; [|reflexivity].
+      specialize (RL len s0 eq_refl).
+      destruct (len <? 0) eqn:E1; [reflexivity|]. destruct (is_str && (len =? 2147483647)) eqn:E2; [reflexivity|].
+      replace (len <? 0) with false by lia.
+      destruct (zlen s0 <? len) eqn:E3.
+      - rewrite take_z_short by lia. split; reflexivity.
+      - rewrite take_z_firstn by lia. exists len, s0. repeat split; try reflexivity; try assumption. rewrite skipn_length. lia. }
+    replace (Z.of_nat (S n)) with (Z.of_nat n + 1) by lia.
+    assert (Hpos : (Z.of_nat n + 1 <=? 0) = false) by lia.
+    destruct fuel as [|b fuel].
+    + destruct s; [|cbn [List.length] in Hl; lia]. cbn [rrep]. rewrite Hpos.
+      destruct (read_elem false None is_ty packed []) as [[e s1]|st] eqn:RE.
+      * destruct STEP as (len & s0 & _ & _ & _ & _ & _ & _ & Hlt). cbn [List.length] in Hlt. lia.
+      * cbn [elems_spec]. fold is_str. destruct (if packed then read_7bit [] else read_int32 false []) as [[len s0]|e]; [|now subst].
+        destruct (len <? 0); [now subst|]. destruct (is_str && (len =? int_max)); [now subst|]. destruct STEP as (-> & ->). replace (k =? 0) with false by lia. reflexivity.
+    + cbn [rrep]. rewrite Hpos. cbn [elems_spec]. fold is_str.
+      destruct (read_elem false None is_ty packed s) as [[e s1]|st] eqn:RE.
+      * destruct STEP as (len & s0 & ER & E1 & E2 & E3 & -> & -> & Hlt). rewrite ER, E1, E2, E3. replace (k =? 0) with false by lia.
+        replace (next_fail k) with k by (unfold next_fail; replace (0 <? k) with false by lia; reflexivity).
+        replace (Z.of_nat n + 1 - 1) with (Z.of_nat n) by lia.
+        assert (Hs0 : Forall byte (skipn (Z.to_nat len) s0)).
+        { apply Forall_skipn_byte. destruct packed; [exact (proj1 (read7_loop_shr 6 0 0 s len s0 Hs ER))|exact (read_int32_bytes s len s0 Hs ER)]. }
+        specialize (IH fuel (skipn (Z.to_nat len) s0) (elem_block is_str m (firstn (Z.to_nat len) s0)) Hs0 ltac:(cbn [List.length] in Hl; lia)).
+        cbv zeta in IH. fold is_str in IH.
+        destruct (rrep fuel (Z.of_nat n) (read_elem false None is_ty packed) (skipn (Z.to_nat len) s0)) as [[es s']|st].
+        -- destruct IH as (qs & -> & Hq). eexists. split; [reflexivity|cbn [List.length]; lia].
+        -- rewrite IH. reflexivity.
+      * destruct (if packed then read_7bit s else read_int32 false s) as [[len s0]|e]; [|now subst].
+        destruct (len <? 0); [now subst|]. destruct (is_str && (len =? int_max)); [now subst|]. destruct STEP as (-> & ->). replace (k =? 0) with false by lia. reflexivity.
+Qed.
+
+Theorem arr_spec_model k sx m v cnt pk : k < 0 -> is_arr v = true -> Forall byte sx ->
+  match read_objects false None v cnt (negb (pk =? 0)) sx with
+  | Ok (ob, s') => exists qs, arr_spec k sx m v cnt pk = EOk qs k s' (blocks (v =? SBDF_STRINGTYPEID) m (oelems ob)) /\
+                               List.length qs = List.length (oelems ob) /\ oty ob = v
+  | Err st => arr_spec k sx m v cnt pk = EErr st
+  end.
+Proof.
+  intros Hk Ha Hs. unfold read_objects, arr_spec. rewrite Ha. destruct (cnt <? 0) eqn:E0; [reflexivity|].
+  replace (k =? 0) with false by lia. assert (Dk : dec k = k) by (unfold dec; replace (0 <? k) with false by lia; reflexivity). rewrite !Dk.
+  replace (k =? 0) with false by lia.
+  unfold rd_bind, ralloc, alloc_ok, rret, rrepeat. 
+  destruct (pk =? 0) eqn:Ep; cbn [negb].
+  - pose proof (elems_model v false k Hk (Z.to_nat cnt) sx sx m Hs ltac:(lia)) as EM. cbv zeta in EM. rewrite Z2Nat.id in EM by lia.
+    destruct (rrep sx cnt (read_elem false None v false) sx) as [[es s']|st].
+    + destruct EM as (qs & -> & Hq). exists qs. repeat split; [exact Hq].
+    + exact EM.
+  - destruct (read_int32 false sx) as [[x s1]|e] eqn:ER; [|reflexivity].
+    pose proof (read_int32_bytes sx x s1 Hs ER) as Hs1.
+    pose proof (elems_model v true k Hk (Z.to_nat cnt) s1 s1 m Hs1 ltac:(lia)) as EM. cbv zeta in EM. rewrite Z2Nat.id in EM by lia.
+    destruct (rrep s1 cnt (read_elem false None v true) s1) as [[es s']|st].
+    + destruct EM as (qs & -> & Hq). exists qs. repeat split; [exact Hq].
+    + exact EM.
+Qed.
